@@ -279,6 +279,28 @@ func realNonceMaterial(c *ctx) {
 							break
 						}
 					}
+					// the material removed from the received message (and, for a Partial IV, replaced by an empty one): no
+					// nonce can be derived, whatever the Base IV of the key is
+					for _, strip := range []int{0, 1} {
+						d, _ := rebuildUnprotected(data, func(un cose.Headers) {
+							if strip == 0 {
+								delete(un, label)
+							} else {
+								un[label] = []byte{}
+							}
+						})
+						var s2 [][]byte
+						var got2 []byte
+						var e2 error
+						pp, ppm := catch(func() { got2, _, e2 = consumeReal(kind, k, d, ext, &s2) })
+						c.eval()
+						c.nontriv(fmt.Sprintf("nonce-material-stripped|%d|%d|%d|%v", alg, vr[0], strip, e2 == nil))
+						if pp || e2 == nil {
+							c.fail(failure{Op: "real-nonce-material", What: "a message whose IV / Partial IV was removed still decrypts", Input: line + fmt.Sprintf("|material %x under label %d %s", material, label, []string{"deleted", "replaced by h''"}[strip]),
+								Observed: fmt.Sprintf("panic=%v %s accepted, payload=%x", pp, ppm, got2), Expected: "an error (no nonce can be derived)", Case: line, Theorem: "C03_nonce_material_binds"})
+							break
+						}
+					}
 					if vr[0] == 0 {
 						base, _ := k.GetBytes(iana.KeyParameterBaseIV)
 						for pos := 0; pos < len(base) && pos < ns; pos++ {
